@@ -16,8 +16,13 @@ use std::time::Instant;
 
 const VERIF: &str = "/verif";
 
-fn simrun_path() -> String {
+/// `scenario@ns` = the same scenario run by the second build variant (may built without the
+/// `work_steal` feature), which lives in <target>/nosteal
+fn simrun_path(scenario: &str) -> String {
     let me = std::env::current_exe().unwrap();
+    if scenario.ends_with("@ns") {
+        return me.parent().unwrap().parent().unwrap().join("nosteal/debug/simrun").to_string_lossy().into_owned();
+    }
     me.parent().unwrap().join("simrun").to_string_lossy().into_owned()
 }
 
@@ -34,7 +39,7 @@ struct RunOut {
 
 fn run_one(scenario: &str, seed: u64, extra: &[String], replay_out: Option<&str>) -> RunOut {
     let t0 = Instant::now();
-    let mut cmd = Command::new(simrun_path());
+    let mut cmd = Command::new(simrun_path(scenario));
     cmd.arg(scenario).arg(seed.to_string()).args(extra);
     cmd.stdin(Stdio::null()).stdout(Stdio::piped()).stderr(Stdio::piped());
     match replay_out {
